@@ -11,7 +11,8 @@
 //!        tpl 1 PUBLISH qos,id,topic_idx,alias,retain,payload_len
 //!              (topic 0 = "", 1..3 = "t1".."t3", 4 = "a/#"; alias 0 = none (v5 only))
 //!        2 PUBACK id   3 PUBREC id   4 PUBREL id   5 PUBCOMP id
-//!        6 SUBSCRIBE id,filter_idx (1 "a/b", 2 "a/+", 3 "a/#/b")   7 UNSUBSCRIBE id,filter_idx
+//!        6 SUBSCRIBE id,filter_idx (1 "a/b", 2 "a/+", 3 "a/#/b", 4 "a/b"+"a/#/b", 5 "sport/tennis#"+"a/+",
+//!              6 "a/+"+"a/b"+"#/x": lists of mixed validity)   7 UNSUBSCRIBE id,filter_idx
 //!        8 PINGREQ   9 DISCONNECT reason,session_expiry (v3: plain)   10 AUTH
 //!        11 SUBACK id   12 UNSUBACK id   13 PINGRESP   14 CONNECT   15 CONNACK
 //!     2,h,res        publish handler invocation h completes: 0 = Ok, 1 = plain error,
@@ -126,11 +127,16 @@ fn topic_name(i: u64) -> &'static str {
     }
 }
 
-fn filter_name(i: u64) -> &'static str {
+/// the topic filters of SUBSCRIBE / UNSUBSCRIBE template `i`: 1, 2 a single valid filter, 3 a single invalid
+/// one, 4..6 lists of mixed validity (a valid filter before / after an invalid one)
+fn filter_names(i: u64) -> &'static [&'static str] {
     match i {
-        1 => "a/b",
-        2 => "a/+",
-        _ => "a/#/b",
+        1 => &["a/b"],
+        2 => &["a/+"],
+        4 => &["a/b", "a/#/b"],
+        5 => &["sport/tennis#", "a/+"],
+        6 => &["a/+", "a/b", "#/x"],
+        _ => &["a/#/b"],
     }
 }
 
@@ -168,8 +174,10 @@ pub fn packet_bytes(op: &[u64], v5: bool) -> Vec<u8> {
             if v5 {
                 b.push(0);
             }
-            put_str(&mut b, filter_name(arg(op, 3)));
-            b.push(1);
+            for f in filter_names(arg(op, 3)) {
+                put_str(&mut b, f);
+                b.push(1);
+            }
             frame(0x82, &b)
         }
         7 => {
@@ -177,7 +185,9 @@ pub fn packet_bytes(op: &[u64], v5: bool) -> Vec<u8> {
             if v5 {
                 b.push(0);
             }
-            put_str(&mut b, filter_name(arg(op, 3)));
+            for f in filter_names(arg(op, 3)) {
+                put_str(&mut b, f);
+            }
             frame(0xa2, &b)
         }
         8 => frame(0xc0, &[]),
